@@ -193,10 +193,9 @@ class Track(object):
         """
         if hasattr(value, "bar"):
             return self.add_bar(value)
-        elif hasattr(value, "notes"):
-            return self.add_notes(value)
-        elif hasattr(value, "name") or isinstance(value, six.string_types):
-            return self.add_notes(value)
+        # Everything else is for add_notes to judge: notes, note strings,
+        # NoteContainers, lists of notes and rests (None)
+        return self.add_notes(value)
 
     def test_integrity(self):
         """Test whether all but the last Bars contained in this track are
